@@ -138,7 +138,7 @@ def run(ctx):
     # (1) every column count
     for n in range(0, nmax + 1):
         for ncol in range(0, 3 * n + 7):
-            for rep in range(2 if ctx.quick else 6):
+            for rep in range(2 if ctx.quick else 20):
                 if not ctx.mine(i):
                     i += 1
                     continue
@@ -176,7 +176,7 @@ def run(ctx):
                     run_line(' '.join(['nm', '1.5', '-2.25'] + v2 + vals), ('badflag', vec, pos, b))
     # (3) sampled larger n with round trips
     from sedfitter.source import Source
-    for j in range(400 if ctx.quick else 3000):
+    for j in range(400 if ctx.quick else 20000):
         n = int(rng.integers(0, nmax + 1))
         name = ''.join(rng.choice(list('abcXYZ019_-.+'), int(rng.integers(1, 41))))
         valid = [int(rng.choice([0, 1, 2, 3, 4, 9])) for _ in range(n)]
